@@ -1,4 +1,5 @@
 import RNacos.Model.Naming
+import RNacos.Model.NamingSnap
 import RNacos.Driver.Util
 /-
 Line protocol of model `naming` (C11, C12, C13).  Service keys are `ns|group|name` (`-` = empty).
@@ -141,6 +142,12 @@ def step (n : Naming) (ws : List String) : Naming × String :=
     (n, s!"clients {",".intercalate l}")
   | ["audit"] => (n, s!"{dumpStr n} insts={allInstances n}")
   | ["dump"] => (n, dumpStr n)
+  -- the registry's snapshot records, and a restart from them (a fresh registry that loads the snapshot)
+  | "snap" :: _ =>
+    let l := sorted ((buildSnapshot n).map fun r =>
+      s!"{if r.1.ns.isEmpty then "-" else r.1.ns}|{r.1.group}|{r.1.service}@{r.2.ip}:{r.2.port}:w{r.2.weight}:e{b01 r.2.enabled}:h{b01 r.2.healthy}:p{b01 (!r.2.ephemeral)}")
+    (n, s!"snap {joinOrDash l}")
+  | "reload" :: _ => (loadSnapshot now (fun _ => 0) {} (buildSnapshot n), "ok")
   | _ => (n, "bad-op")
 
 /-! ## spec oracles on the implementation's answers -/
